@@ -463,6 +463,49 @@ pub fn proto_extensions(ctx: &Ctx) {
         }
     }
     if read_and_compare(ctx, &p, &w, P, None).is_some() {
+        // "standard attributes of the same point cloud are unaffected": the simple iterator must
+        // deliver the same points as for the same cloud written without its extension records
+        let Op::Cloud(with_ext) = &p.ops[1] else { return };
+        let keep: Vec<usize> = with_ext.proto.iter().enumerate().filter(|(_, r)| r.ns.is_none()).map(|(i, _)| i).collect();
+        let mut plain = with_ext.clone();
+        plain.proto = keep.iter().map(|i| with_ext.proto[*i].clone()).collect();
+        plain.points = with_ext.points.iter().map(|pt| keep.iter().map(|i| pt[*i]).collect()).collect();
+        let p0 = Program { guid: "g".into(), ops: vec![p.ops[0].clone(), Op::Cloud(plain)], ..Default::default() };
+        let simple = |bytes: &[u8]| -> Result<Vec<String>, String> {
+            let mut r = E57Reader::new(Dev::new(bytes.to_vec())).map_err(|e| err_string(&e))?;
+            let pc = r.pointclouds()[0].clone();
+            let mut out = Vec::new();
+            for item in r.pointcloud_simple(&pc).map_err(|e| err_string(&e))?.take(pc.records as usize + 1) {
+                match item {
+                    Ok(pt) => out.push(format!("{pt:?}")),
+                    Err(e) => return Err(format!("after {} points: {}", out.len(), err_string(&e))),
+                }
+            }
+            Ok(out)
+        };
+        let dev0 = Dev::empty();
+        let h0 = dev0.handle();
+        let run0 = run_program(dev0, &p0, &ExecOpts::default());
+        if run0.err.is_none() && run0.panic.is_none() {
+            match guarded(|| (simple(&w.bytes), simple(&h0.snapshot()))) {
+                Ok((a, b)) if a == b => {}
+                Ok((a, b)) => {
+                    let first = match (&a, &b) {
+                        (Ok(x), Ok(y)) => x.iter().zip(y.iter()).find(|(p, q)| p != q).map(|(p, q)| format!("{p} vs {q}")).unwrap_or(format!("{} vs {} points", x.len(), y.len())),
+                        _ => format!("{:?} vs {:?}", a.as_ref().map(|v| v.len()), b.as_ref().map(|v| v.len())),
+                    };
+                    ctx.violation(
+                        format!("{P}/extension-attribute-alters-standard-points"),
+                        format!("simple iterator: the cloud with the extension attribute {ns}:{name} (prototype position {pos}) yields other points than the same cloud without it: {first}"),
+                    );
+                    return;
+                }
+                Err(pi) => {
+                    ctx.violation(format!("{P}/read-panic/{}", pi.class()), format!("simple iterator panicked at {} ({})", pi.loc, pi.msg));
+                    return;
+                }
+            }
+        }
         ctx.count("extension-name:accepted-and-round-tripped");
         ctx.observe(&w.bytes);
         ctx.nontrivial();
